@@ -349,3 +349,40 @@ def episode_id_of(agent, turn, slot, text):
     """the reflection episode id as a function of (agent id, turn id, slot, text) only"""
     return ("refl-" + turn + "-" + agent + "-" + str(slot) + "-" +
             sha256_hex(agent + "|" + turn + "|" + str(slot) + "|" + text)[:12])
+# ---------------------------------------------------------------- C18: graph evolution layer (gel.py)
+
+@spec
+def esrc(a, b):
+    return ite(a <= b, a, b)
+
+
+@spec
+def edst(a, b):
+    return ite(a <= b, b, a)
+
+
+@spec
+def ekey(a, b):
+    """canonical undirected edge key of the unordered pair {a, b} (ekeyf(s, d) spells s + "→" + d)"""
+    return ekeyf(esrc(a, b), edst(a, b))
+
+
+@spec
+def clampf(x, lo, hi):
+    return ite(x > hi, hi, ite(x < lo, lo, x))
+
+
+@spec
+def below_floor(r0, f, fl):
+    """the decay pass drops the edge record r0: |w * f| < floor"""
+    return absr(r0['weight'] * f) < fl
+
+
+@spec
+def ticked_rec(r0, f, turn):
+    """the edge record r0 after one visit of the decay loop of tick() that keeps it (factor f, optional turn)"""
+    return {'id': r0['id'], 'src': r0['src'], 'dst': r0['dst'], 'weight': r0['weight'] * f, 'rel': r0['rel'],
+            'updated_at': ite(is_none(turn), r0['updated_at'], None),
+            'attrs': {'coact': r0['attrs']['coact'],
+                      'last_seen_turn': ite(is_none(r0['attrs']['last_seen_turn']) and not is_none(turn), turn,
+                                            r0['attrs']['last_seen_turn'])}}
